@@ -167,3 +167,5 @@ func firstDiff(a, b string) string {
 	}
 	return fmt.Sprintf("length %d vs %d", len(la), len(lb))
 }
+
+func render1(x interface{}) string { return render(reflect.ValueOf(x)) }
